@@ -386,6 +386,14 @@ Proof.
     rewrite trim_end_nonws by auto. rewrite <- !app_assoc. reflexivity.
 Qed.
 
+(** the text up to and including the MACRO EXPANSIONS marker line, followed by [R9] *)
+Definition head_text (a : sections) (R9 : text) : text :=
+  unlines (s_root a) ++ NL :: M_DEPENDENCIES ++ NL :: unlines (s_deps a) ++ NL :: M_EXPORTS ++
+  NL :: unlines (s_exports a) ++ NL :: M_BINDINGS ++ NL :: unlines (s_bindings a) ++ NL :: M_FUNCTIONS ++
+  NL :: unlines (s_functions a) ++ NL :: M_INDEX_MACROS ++ NL :: unlines (s_imacros a) ++ NL :: M_CODE_MACROS ++
+  NL :: unlines (s_cmacros a) ++ NL :: M_SPANS ++ NL :: unlines (s_spans a) ++ NL :: M_FILES ++
+  NL :: unlines (s_files a) ++ NL :: M_MACRO_EXPANSIONS ++ NL :: R9.
+
 (** ** the cascade, for any splitter meeting the step specifications *)
 Section Cascade.
   Variable sp : text -> text -> option (text * text).
@@ -410,12 +418,6 @@ Section Cascade.
     destruct Hpfx as [-> | ->]; reflexivity.
   Qed.
 
-  Definition okall (a : sections) : bool :=
-    okb M_DEPENDENCIES (s_root a) && okb M_EXPORTS (s_deps a) && okb M_BINDINGS (s_exports a) &&
-    okb M_FUNCTIONS (s_bindings a) && okb M_INDEX_MACROS (s_functions a) && okb M_CODE_MACROS (s_imacros a) &&
-    okb M_SPANS (s_cmacros a) && okb M_FILES (s_spans a) && okb M_MACRO_EXPANSIONS (s_files a) &&
-    okb M_STRING_INPUTS (s_expansions a).
-
   (** one trimmed step: the rest after the previous marker is [post R] with [R] a tail *)
   Lemma step_trim m ls T R : marker_okb m = true -> okb m ls = true -> Forall noNL ls -> head_ok ls = true ->
     shape R -> trim R = trim (NL :: unlines ls ++ NL :: m ++ NL :: T) ->
@@ -425,25 +427,34 @@ Section Cascade.
     rewrite trim_section by auto. apply Hstepb; auto. apply shape_trim_end.
   Qed.
 
-  Theorem cascade_roundtrip a :
-    sections_wf a = true -> okall a = true -> from_uasm_with sp (to_uasm a) = inr (reread a).
+  Definition okhead (a : sections) : bool :=
+    okb M_DEPENDENCIES (s_root a) && okb M_EXPORTS (s_deps a) && okb M_BINDINGS (s_exports a) &&
+    okb M_FUNCTIONS (s_bindings a) && okb M_INDEX_MACROS (s_functions a) && okb M_CODE_MACROS (s_imacros a) &&
+    okb M_SPANS (s_cmacros a) && okb M_FILES (s_spans a) && okb M_MACRO_EXPANSIONS (s_files a).
+
+  (** the nine cuts up to MACRO EXPANSIONS, whatever follows that marker line *)
+  Theorem head_roundtrip a R9 :
+    sections_wf a = true -> okhead a = true ->
+    split_head sp (head_text a R9) =
+      inr (RawH (unlines (s_root a) ++ [NL]) (pfx ++ unlines (s_deps a) ++ [NL]) (pfx ++ unlines (s_exports a) ++ [NL])
+             (body' (s_bindings a)) (body' (s_functions a)) (body' (s_imacros a)) (body' (s_cmacros a))
+             (body' (s_spans a)) (body' (s_files a)),
+           post (trim_end (NL :: R9))).
   Proof.
-    intros Hwf Hok. unfold sections_wf in Hwf. unfold okall in Hok.
+    intros Hwf Hok. unfold sections_wf in Hwf. unfold okhead in Hok.
     repeat (match goal with H : _ && _ = true |- _ => apply andb_prop in H; destruct H end).
     repeat (match goal with H : forallb _ _ = true |- _ => rewrite forallb_forall in H; apply Forall_forall in H end).
-    destruct a as [root deps exports bindings functions imacros cmacros spans files exps strings].
-    cbn [s_root s_deps s_exports s_bindings s_functions s_imacros s_cmacros s_spans s_files s_expansions s_strings] in *.
+    destruct a as [root deps exports bindings functions imacros cmacros spans files exps strings asserts].
+    cbn [s_root s_deps s_exports s_bindings s_functions s_imacros s_cmacros s_spans s_files s_expansions s_strings s_asserts] in *.
     assert (Mok : forall m, In m markers -> marker_okb m = true).
     { apply forallb_forall. exact markers_ok. }
     assert (M1 := Mok M_DEPENDENCIES ltac:(cbn; tauto)). assert (M2 := Mok M_EXPORTS ltac:(cbn; tauto)).
     assert (M3 := Mok M_BINDINGS ltac:(cbn; tauto)). assert (M4 := Mok M_FUNCTIONS ltac:(cbn; tauto)).
     assert (M5 := Mok M_INDEX_MACROS ltac:(cbn; tauto)). assert (M6 := Mok M_CODE_MACROS ltac:(cbn; tauto)).
     assert (M7 := Mok M_SPANS ltac:(cbn; tauto)). assert (M8 := Mok M_FILES ltac:(cbn; tauto)).
-    assert (M9 := Mok M_MACRO_EXPANSIONS ltac:(cbn; tauto)). assert (M10 := Mok M_STRING_INPUTS ltac:(cbn; tauto)).
+    assert (M9 := Mok M_MACRO_EXPANSIONS ltac:(cbn; tauto)).
     clear Mok.
-    (* the tails *)
-    set (T10 := match strings with [] => [] | _ => NL :: M_STRING_INPUTS ++ NL :: unlines strings end).
-    set (T9 := NL :: unlines exps ++ T10).
+    set (T9 := NL :: R9).
     set (T8 := NL :: unlines files ++ NL :: M_MACRO_EXPANSIONS ++ T9).
     set (T7 := NL :: unlines spans ++ NL :: M_FILES ++ T8).
     set (T6 := NL :: unlines cmacros ++ NL :: M_SPANS ++ T7).
@@ -452,74 +463,87 @@ Section Cascade.
     set (T3 := NL :: unlines bindings ++ NL :: M_FUNCTIONS ++ T4).
     set (T2 := NL :: unlines exports ++ NL :: M_BINDINGS ++ T3).
     set (T1 := NL :: unlines deps ++ NL :: M_EXPORTS ++ T2).
-    assert (Etext : to_uasm (Sections root deps exports bindings functions imacros cmacros spans files exps strings)
-                    = unlines root ++ NL :: M_DEPENDENCIES ++ T1).
-    { unfold to_uasm, mark. cbn [s_root s_deps s_exports s_bindings s_functions s_imacros s_cmacros s_spans s_files s_expansions s_strings].
-      subst T1 T2 T3 T4 T5 T6 T7 T8 T9 T10. destruct strings; cbn [app]; repeat rewrite <- app_assoc; cbn [app]; reflexivity. }
+    assert (Etext : head_text (Sections root deps exports bindings functions imacros cmacros spans files exps strings asserts) R9
+                    = unlines root ++ NL :: M_DEPENDENCIES ++ T1) by reflexivity.
     assert (Hspans : Forall noNL spans).
     { match goal with H : Forall (fun x => span_line_ok x = true) spans |- _ => revert H end.
       apply Forall_impl. apply span_line_ok_noNL. }
-    unfold from_uasm_with, split_uasm_with. rewrite Etext.
-    (* 1: DEPENDENCIES *)
+    unfold split_head. rewrite Etext.
     rewrite Hstep0; [| auto | auto | apply Forall_noNL; auto | right; eexists; reflexivity].
     unfold T1 at 1. rewrite Hpost1.
-    (* 2: EXPORTS *)
     rewrite Hstep; [| auto | auto | apply Forall_noNL; auto | right; eexists; reflexivity].
     unfold T2 at 1. rewrite Hpost1.
-    (* 3: BINDINGS *)
     rewrite Hstep; [| auto | auto | apply Forall_noNL; auto | right; eexists; reflexivity].
-    (* 4: FUNCTIONS *)
     rewrite (step_trim M_FUNCTIONS bindings (unlines functions ++ NL :: M_INDEX_MACROS ++ T5) T3);
       [| auto | auto | apply Forall_noNL; auto | auto | right; eexists; reflexivity | reflexivity].
     fold T4.
-    (* 5: INDEX MACROS *)
     rewrite (step_trim M_INDEX_MACROS functions (unlines imacros ++ NL :: M_CODE_MACROS ++ T6) (trim_end T4));
       [| auto | auto | apply Forall_noNL; auto | auto | apply shape_trim_end | rewrite trim_trim_end; reflexivity].
     fold T5.
-    (* 6: CODE MACROS *)
     rewrite (step_trim M_CODE_MACROS imacros (unlines cmacros ++ NL :: M_SPANS ++ T7) (trim_end T5));
       [| auto | auto | apply Forall_noNL; auto | auto | apply shape_trim_end | rewrite trim_trim_end; reflexivity].
     fold T6.
-    (* 7: SPANS *)
     rewrite (step_trim M_SPANS cmacros (unlines spans ++ NL :: M_FILES ++ T8) (trim_end T6));
       [| auto | auto | apply Forall_noNL; auto | auto | apply shape_trim_end | rewrite trim_trim_end; reflexivity].
     fold T7.
-    (* 8: FILES *)
     rewrite (step_trim M_FILES spans (unlines files ++ NL :: M_MACRO_EXPANSIONS ++ T9) (trim_end T7));
       [| auto | auto | auto | auto | apply shape_trim_end | rewrite trim_trim_end; reflexivity].
     fold T8.
-    (* 9: MACRO EXPANSIONS *)
-    rewrite (step_trim M_MACRO_EXPANSIONS files (unlines exps ++ T10) (trim_end T8));
+    rewrite (step_trim M_MACRO_EXPANSIONS files R9 (trim_end T8));
       [| auto | auto | apply Forall_noNL; auto | auto | apply shape_trim_end | rewrite trim_trim_end; reflexivity].
-    fold T9.
-    (* 10: STRING INPUTS *)
-    unfold reread. cbn [s_root s_deps s_exports s_bindings s_functions s_imacros s_cmacros s_spans s_files s_expansions s_strings].
+    reflexivity.
+  Qed.
+
+  (** the lines of the nine sections *)
+  Lemma head_sections_eq a e st ta : sections_wf a = true ->
+    head_sections (RawH (unlines (s_root a) ++ [NL]) (pfx ++ unlines (s_deps a) ++ [NL]) (pfx ++ unlines (s_exports a) ++ [NL])
+             (body' (s_bindings a)) (body' (s_functions a)) (body' (s_imacros a)) (body' (s_cmacros a))
+             (body' (s_spans a)) (body' (s_files a))) e st ta =
+    Sections (s_root a) (s_deps a) (s_exports a) (s_bindings a) (s_functions a) (s_imacros a) (s_cmacros a)
+      (match s_spans a with [] => [] | l => l ++ [[]] end) (s_files a) e st ta.
+  Proof.
+    intros Hwf. unfold sections_wf in Hwf.
+    repeat (match goal with H : _ && _ = true |- _ => apply andb_prop in H; destruct H end).
+    repeat (match goal with H : forallb _ _ = true |- _ => rewrite forallb_forall in H; apply Forall_forall in H end).
+    unfold head_sections. cbn [r_root r_deps r_exports r_bindings r_functions r_imacros r_cmacros r_spans r_files].
+    rewrite !lines_ne_pfx, !lines_ne_body', span_lines_body' by auto.
+    rewrite lines_ne_root by auto.
+    destruct (s_spans a); reflexivity.
+  Qed.
+
+  (** the readers before 69a2f06 on the text written before 69a2f06 *)
+  Theorem cascade_roundtrip a :
+    sections_wf a = true -> okhead a = true -> okb M_STRING_INPUTS (s_expansions a) = true ->
+    from_uasm_with sp (to_uasm_pre a) = inr (reread_pre a).
+  Proof.
+    intros Hwf Hok Hoe.
+    assert (M10 : marker_okb M_STRING_INPUTS = true) by reflexivity.
+    set (T10 := match s_strings a with [] => [] | _ => NL :: M_STRING_INPUTS ++ NL :: unlines (s_strings a) end).
+    assert (Etext : to_uasm_pre a = head_text a (unlines (s_expansions a) ++ T10)).
+    { unfold to_uasm_pre, head_text, mark. subst T10. destruct (s_strings a); cbn [app]; repeat rewrite <- app_assoc; cbn [app]; reflexivity. }
+    unfold from_uasm_with. rewrite Etext, head_roundtrip by auto.
+    assert (HSE := fun e st ta => head_sections_eq a e st ta Hwf).
+    unfold reread_pre.
+    unfold sections_wf in Hwf.
+    repeat (match goal with H : _ && _ = true |- _ => apply andb_prop in H; destruct H end).
+    repeat (match goal with H : forallb _ _ = true |- _ => rewrite forallb_forall in H; apply Forall_forall in H end).
     rewrite trim_post by apply shape_trim_end. rewrite trim_trim_end.
-    destruct strings as [|s0 ss].
-    - subst T9 T10. rewrite app_nil_r. rewrite Hnone by auto.
-      cbn [r_root r_deps r_exports r_bindings r_functions r_imacros r_cmacros r_spans r_files r_expansions r_strings].
-      assert (Eexp : lines_ne (post (trim_end (NL :: unlines exps))) = exps).
-      { destruct (lines_ne_trim_end_nl exps) as [E1 E2]; auto.
-        destruct (shape_trim_end (unlines exps)) as [E | [Y E]].
+    subst T10. destruct (s_strings a) as [|s0 ss] eqn:Es.
+    - rewrite app_nil_r. rewrite Hnone by auto.
+      assert (Eexp : lines_ne (post (trim_end (NL :: unlines (s_expansions a)))) = s_expansions a).
+      { destruct (lines_ne_trim_end_nl (s_expansions a)) as [E1 E2]; auto.
+        destruct (shape_trim_end (unlines (s_expansions a))) as [E | [Y E]].
         - rewrite E, Hpost0. rewrite E in E1. exact E1.
         - rewrite E, Hpost1. destruct Hpfx as [-> | ->].
           + specialize (E2 _ (eq_sym E)). exact E2.
           + cbn [app]. rewrite <- E. exact E1. }
-      rewrite Eexp.
-      rewrite !lines_ne_pfx, !lines_ne_body', span_lines_body' by auto.
-      rewrite lines_ne_root by auto.
-      destruct spans; reflexivity.
-    - subst T9 T10.
-      replace (trim (NL :: unlines exps ++ NL :: M_STRING_INPUTS ++ NL :: unlines (s0 :: ss)))
-        with (body' exps ++ M_STRING_INPUTS ++ trim_end (NL :: unlines (s0 :: ss)))
+      rewrite HSE. rewrite Eexp. reflexivity.
+    - replace (trim (NL :: unlines (s_expansions a) ++ NL :: M_STRING_INPUTS ++ NL :: unlines (s0 :: ss)))
+        with (body' (s_expansions a) ++ M_STRING_INPUTS ++ trim_end (NL :: unlines (s0 :: ss)))
         by (symmetry; apply trim_section; auto).
       rewrite Hstepb; [| auto | auto | apply Forall_noNL; auto | apply shape_trim_end].
-      cbn [r_root r_deps r_exports r_bindings r_functions r_imacros r_cmacros r_spans r_files r_expansions r_strings].
       rewrite trim_post by apply shape_trim_end. rewrite trim_trim_end.
-      rewrite lines_strings by auto.
-      rewrite !lines_ne_pfx, !lines_ne_body', span_lines_body' by auto.
-      rewrite lines_ne_root by auto.
-      destruct spans; reflexivity.
+      rewrite HSE. rewrite lines_strings by auto. rewrite lines_ne_body' by auto. reflexivity.
   Qed.
 End Cascade.
 
@@ -535,9 +559,10 @@ Proof.
 Qed.
 
 Theorem framing_roundtrip_pre a :
-  sections_wf a = true -> no_marker_in_bodies a = true -> from_uasm_pre (to_uasm a) = inr (reread a).
+  sections_wf a = true -> no_marker_in_bodies a = true -> from_uasm_pre (to_uasm_pre a) = inr (reread_pre a).
 Proof.
   intros Hwf Hno. unfold from_uasm_pre.
+  unfold no_marker_in_bodies in Hno. apply andb_prop in Hno. destruct Hno as [Hno1 Hno2].
   apply (cascade_roundtrip split_once [NL] (fun X => X) okb_once); auto.
   - intros m ls X Hm Ho _ _. destruct (marker_facts _ Hm) as (Hne & Hnl & _).
     apply split_once_step; auto. unfold okb_once in Ho. apply negb_true_iff in Ho. exact Ho.
@@ -566,10 +591,10 @@ Qed.
     marker word.  root = {"push":"DEPENDENCIES"}, string input = "\"DEPENDENCIES\"" *)
 Definition refute_witness : sections :=
   Sections [[123;34;112;117;115;104;34;58;34] ++ M_DEPENDENCIES ++ [34;125]] [] [] [] [] [] [] [] [] []
-           [34 :: 92 :: 34 :: M_DEPENDENCIES ++ [92;34;34]].
+           [34 :: 92 :: 34 :: M_DEPENDENCIES ++ [92;34;34]] [].
 
 Theorem framing_refuted_pre : exists a, sections_wf a = true /\ written_shape a = true /\
-  from_uasm_pre (to_uasm a) <> inr (reread a) /\ from_uasm_pre (to_uasm a) <> inr a.
+  from_uasm_pre (to_uasm_pre a) <> inr (reread_pre a) /\ from_uasm_pre (to_uasm_pre a) <> inr a.
 Proof. exists refute_witness. split; [reflexivity|]. split; [reflexivity|]. split; vm_compute; discriminate. Qed.
 
 
@@ -750,48 +775,333 @@ Proof.
 Qed.
 
 (** C17 for the current code: no premise about the contents, only the shape of written lines *)
+(** the step specifications of [cascade] for [split_marker] *)
+Lemma sm_stepb m ls X : marker_okb m = true -> no_line_is m ls = true -> Forall noNL ls -> shape X ->
+  split_marker m (body' ls ++ m ++ X) = Some (body' ls, post_nl X).
+Proof.
+  intros Hm Ho Hn HX. destruct ls as [|l ls].
+  - cbn [body' app]. apply sm_at; auto.
+  - unfold body'. rewrite <- app_assoc. cbn [app]. apply sm_step; auto.
+Qed.
+
+Lemma trim_end_unlines_last init l : line_ok l = true ->
+  forall P, trim_end (P ++ unlines (init ++ [l])) = P ++ unlines init ++ l.
+Proof.
+  intros Hl P. apply line_ok_facts in Hl. destruct Hl as (_ & _ & l0 & c & -> & W).
+  rewrite unlines_app. unfold unlines at 2. cbn [map concat]. rewrite app_nil_r.
+  replace (P ++ unlines init ++ (l0 ++ [c]) ++ [NL]) with ((P ++ unlines init ++ l0) ++ c :: [NL])
+    by (rewrite <- !app_assoc; reflexivity).
+  rewrite trim_end_nonws by auto. change (trim_end [NL]) with (@nil N). rewrite <- !app_assoc. reflexivity.
+Qed.
+
+(** no marker line in a text whose lines are not the marker (the last line without its newline) *)
+Lemma sm_none_lines m L : marker_okb m = true -> Forall noNL L -> Forall (not_marker m) L ->
+  (L = [] \/ exists init l, L = init ++ [l] /\ line_ok l = true) ->
+  split_marker m (trim_end (unlines L)) = None.
+Proof.
+  intros Hm Hn Hnm [-> | (init & l & -> & Hl)]; destruct (marker_facts _ Hm) as (Hne & Hnl & _).
+  - change (trim_end (unlines [])) with (@nil N). unfold split_marker. rewrite sm_eq. unfold at_marker.
+    destruct m; [congruence | reflexivity].
+  - pose proof (trim_end_unlines_last init l Hl []) as HT. cbn [app] in HT. rewrite HT.
+    apply Forall_app in Hn. apply Forall_app in Hnm. destruct Hn as [Hn1 Hn2]. destruct Hnm as [Hm1 Hm2].
+    inversion Hn2; inversion Hm2; subst. unfold split_marker.
+    rewrite sm_unlines by auto. rewrite sm_eq.
+    rewrite <- (app_nil_r l) at 1. rewrite at_marker_none by (auto; left; reflexivity).
+    destruct l as [|c l]; [reflexivity|].
+    assert (Hc : (c =? NL) = false).
+    { apply N.eqb_neq. intros ->. match goal with H : noNL (NL :: _) |- _ => apply H end. left; reflexivity. }
+    rewrite Hc, sm_nobol_none; [reflexivity|].
+    intros Hin. match goal with H : noNL (c :: _) |- _ => apply H end. right; auto.
+Qed.
+
+Lemma head_ok_trim_start ls : head_ok ls = true -> trim_start (unlines ls) = unlines ls.
+Proof.
+  intros Hh. destruct ls as [|l ls]; [reflexivity|]. rewrite unlines_cons.
+  destruct l as [|c l]; [discriminate|]. cbn [head_ok] in Hh. apply negb_true_iff in Hh.
+  cbn [app trim_start]. rewrite Hh. reflexivity.
+Qed.
+
+Lemma last_line_ok ls : ls <> [] -> Forall (fun l => line_ok l = true) ls ->
+  forall A, exists init l, A ++ ls = init ++ [l] /\ line_ok l = true.
+Proof.
+  intros Hne H A. destruct (exists_last Hne) as (i & l & ->).
+  apply Forall_app in H. destruct H as [_ H]. inversion H; subst.
+  exists (A ++ i), l. rewrite app_assoc. auto.
+Qed.
+
+Lemma sm_none m ls : marker_okb m = true -> no_line_is m ls = true ->
+  Forall (fun l => line_ok l = true) ls -> head_ok ls = true -> split_marker m (trim (NL :: unlines ls)) = None.
+Proof.
+  intros Hm Ho Hls Hh. rewrite trim_nl. unfold trim. rewrite head_ok_trim_start by auto.
+  apply sm_none_lines; auto using Forall_noNL, no_line_is_Forall.
+  destruct ls as [|l ls]; [left; reflexivity | right].
+  apply (last_line_ok (l :: ls) ltac:(discriminate) Hls []).
+Qed.
+
+Lemma trim_post_nl X : shape X -> trim (post_nl X) = trim X.
+Proof. intros [-> | [Y ->]]; [reflexivity|]. cbn [post_nl]. rewrite N.eqb_refl. reflexivity. Qed.
+
+(** the reader between 0f91cb1 and 69a2f06 on the text written then (record) *)
+Theorem framing_roundtrip_mid a :
+  sections_wf a = true -> written_shape a = true -> from_uasm_mid (to_uasm_pre a) = inr (reread_pre a).
+Proof.
+  intros Hwf Hsh. unfold from_uasm_mid.
+  pose proof Hwf as Hwf0.
+  unfold sections_wf in Hwf. unfold written_shape in Hsh.
+  repeat (match goal with H : _ && _ = true |- _ => apply andb_prop in H; destruct H end).
+  repeat (match goal with H : forallb line_ok _ = true |- _ => rewrite forallb_forall in H; apply Forall_forall in H end).
+  assert (Mc : forall m, In m markers -> forallb is_marker_char m = true).
+  { apply forallb_forall. exact markers_chars. }
+  apply (cascade_roundtrip split_marker [] post_nl no_line_is); auto.
+  - intros m ls X Hm Ho Hn HX. apply sm_step; auto.
+  - intros m ls X Hm Ho Hn HX. cbn [app]. apply sm_step; auto.
+  - intros; apply sm_stepb; auto.
+  - intros; apply sm_none; auto.
+  - unfold okhead.
+    repeat (apply andb_true_intro; split);
+      first [ apply shape_no_line_is; [apply Mc; cbn; tauto | assumption | assumption]
+            | apply span_shape_no_line_is; [apply Mc; cbn; tauto | discriminate | assumption] ].
+  - apply shape_no_line_is; [apply Mc; cbn; tauto | assumption | assumption].
+Qed.
+
+(** ** the current reader: TEST ASSERTS is cut off first, then STRING INPUTS *)
+Lemma trim_end_ws X w : is_ws w = true -> trim_end (X ++ [w]) = trim_end X.
+Proof.
+  intros W. induction X as [|x X IH]; cbn [app].
+  - cbn. rewrite W. reflexivity.
+  - rewrite trim_end_eq, IH. rewrite (trim_end_eq (x :: X)). reflexivity.
+Qed.
+
+Lemma trim_start_end' s : trim s = trim_start (trim_end s).
+Proof. unfold trim. symmetry. apply trim_start_end. Qed.
+
+Lemma trim_app_nl X : trim (X ++ [NL]) = trim X.
+Proof. rewrite !trim_start_end'. rewrite trim_end_ws by reflexivity. reflexivity. Qed.
+
+Lemma trim_start_idem s : trim_start (trim_start s) = trim_start s.
+Proof.
+  induction s as [|c s IH]; [reflexivity|]. cbn [trim_start]. destruct (is_ws c) eqn:W; [exact IH|].
+  cbn [trim_start]. rewrite W. reflexivity.
+Qed.
+
+Lemma trim_trim_start s : trim (trim_start s) = trim s.
+Proof. unfold trim. rewrite trim_start_idem. reflexivity. Qed.
+
+(** trimming the start of  P "\n" MARKER Z  never eats into the marker *)
+Lemma trim_start_app_marker m Z : (exists c m', m = c :: m' /\ is_ws c = false) ->
+  forall P, trim_start (P ++ NL :: m ++ Z) = trim_start (P ++ [NL]) ++ m ++ Z.
+Proof.
+  intros (c & m' & -> & W). induction P as [|x P IH].
+  - cbn [app]. change (trim_start (NL :: (c :: m') ++ Z)) with (trim_start ((c :: m') ++ Z)).
+    cbn [app trim_start]. rewrite W. reflexivity.
+  - cbn [app trim_start]. destruct (is_ws x); [exact IH |].
+    cbn [app]. rewrite <- app_assoc. reflexivity.
+Qed.
+
+Fixpoint dropblank (L : list text) : list text :=
+  match L with [] :: t => dropblank t | _ => L end.
+
+Lemma trim_start_unlines L : head_ok (dropblank L) = true -> trim_start (unlines L) = unlines (dropblank L).
+Proof.
+  induction L as [|l L IH]; intros H; [reflexivity|]. destruct l as [|c l].
+  - cbn [dropblank] in *. rewrite unlines_cons. cbn [app]. change (trim_start (NL :: unlines L)) with (trim_start (unlines L)). auto.
+  - cbn [dropblank] in *. apply head_ok_trim_start. exact H.
+Qed.
+
+Lemma sm_lines_at m L X : marker_okb m = true -> Forall noNL L -> Forall (not_marker m) L -> shape X ->
+  split_marker m (unlines L ++ m ++ X) = Some (unlines L, post_nl X).
+Proof.
+  intros Hm H1 H2 HX. unfold split_marker. rewrite sm_unlines, sm_at by auto. cbn [prep]. rewrite app_nil_r. reflexivity.
+Qed.
+
+Definition SI (ss : list text) : text := match ss with [] => [] | _ => NL :: M_STRING_INPUTS ++ NL :: unlines ss end.
+Definition SIl (ss : list text) : list text := match ss with [] => [] | _ => [] :: M_STRING_INPUTS :: ss end.
+Definition TA (ts : list text) : text := match ts with [] => [] | _ => NL :: M_TEST_ASSERTS ++ NL :: unlines ts end.
+
+Lemma SI_unlines ss : SI ss = unlines (SIl ss).
+Proof.
+  destruct ss as [|s0 ss]; [reflexivity|]. unfold SI, SIl.
+  rewrite (unlines_cons [] ), (unlines_cons M_STRING_INPUTS). reflexivity.
+Qed.
+
+(** the STRING INPUTS cut on a text [R] that trims like  "\n" exps [ "\nSTRING INPUTS\n" ss ] *)
+Lemma si_step exps ss R :
+  Forall (fun l => line_ok l = true) exps -> head_ok exps = true -> no_line_is M_STRING_INPUTS exps = true ->
+  Forall (fun l => line_ok l = true) ss -> head_ok ss = true ->
+  trim R = trim (NL :: unlines exps ++ SI ss) -> (ss = [] -> lines_ne R = exps) ->
+  match (match split_marker M_STRING_INPUTS (trim R) with Some p => p | None => (R, []) end) with
+  | (e, r') => lines_ne e = exps /\ lines (trim r') = ss end.
+Proof.
+  intros He Hhe Hoe Hs Hhs H1 H2. rewrite H1.
+  assert (Hm : marker_okb M_STRING_INPUTS = true) by reflexivity.
+  destruct ss as [|s0 ss].
+  - cbn [SI]. rewrite app_nil_r, sm_none by auto. split; [auto | reflexivity].
+  - unfold SI. rewrite trim_section by auto.
+    rewrite sm_stepb; [| auto | auto | apply Forall_noNL; auto | apply shape_trim_end].
+    split; [apply lines_ne_body'; auto|].
+    rewrite trim_post_nl by apply shape_trim_end. rewrite trim_trim_end. apply lines_strings; auto.
+Qed.
+
+Lemma lines_ne_unlines ls : Forall (fun l => line_ok l = true) ls -> lines_ne (unlines ls) = ls.
+Proof.
+  intros H. apply (lines_ne_pieces _ [] [[]]); auto.
+  rewrite <- (app_nil_r (unlines ls)). rewrite split_nl_unlines by (apply Forall_noNL; auto). reflexivity.
+Qed.
+
+Lemma dropblank_Forall {Q : text -> Prop} L : Forall Q L -> Forall Q (dropblank L).
+Proof. induction 1 as [|l L Hl HL IH]; [constructor|]. destruct l; cbn [dropblank]; auto. Qed.
+
+Lemma trim_end_marker m A Z : marker_okb m = true -> trim_end (A ++ m ++ Z) = A ++ m ++ trim_end Z.
+Proof.
+  intros Hm. destruct (marker_facts _ Hm) as (_ & _ & _ & (m0 & d & -> & Wd)).
+  replace (A ++ (m0 ++ [d]) ++ Z) with ((A ++ m0) ++ d :: Z) by (rewrite <- !app_assoc; reflexivity).
+  rewrite trim_end_nonws by auto. rewrite <- !app_assoc. reflexivity.
+Qed.
+
+(** the lines after MACRO EXPANSIONS (a blank line, the expansions, the STRING INPUTS part, and
+    possibly one more blank line) once the leading blank lines are dropped *)
+Lemma drop_LP exps ss tl : head_ok exps = true -> Forall (fun l => line_ok l = true) exps ->
+  Forall (fun l => line_ok l = true) ss -> (tl = [] \/ tl = [[]]) ->
+  exists Lx, dropblank (([] :: exps ++ SIl ss) ++ tl) = Lx /\ head_ok Lx = true /\
+    (tl = [] -> Lx = [] \/ exists init l, Lx = init ++ [l] /\ line_ok l = true) /\
+    (ss = [] -> lines_ne (unlines Lx) = exps).
+Proof.
+  intros Hh He Hs Htl. destruct exps as [|e0 es].
+  - destruct ss as [|s0 ss'].
+    + exists []. split; [destruct Htl as [-> | ->]; reflexivity|]. repeat split; auto.
+    + exists ((M_STRING_INPUTS :: s0 :: ss') ++ tl). split; [reflexivity|]. split; [reflexivity|]. split.
+      * intros ->. right. rewrite app_nil_r.
+        apply (last_line_ok (s0 :: ss') ltac:(discriminate) Hs [M_STRING_INPUTS]).
+      * discriminate.
+  - exists ((e0 :: es ++ SIl ss) ++ tl). split.
+    { destruct e0 as [|c e0]; [discriminate | reflexivity]. }
+    split.
+    { destruct e0 as [|c e0]; [discriminate | exact Hh]. }
+    split.
+    + intros ->. right. rewrite app_nil_r. destruct ss as [|s0 ss'].
+      * cbn [SIl]. rewrite app_nil_r. apply (last_line_ok (e0 :: es) ltac:(discriminate) He []).
+      * unfold SIl. change ([] :: M_STRING_INPUTS :: s0 :: ss') with ([[]; M_STRING_INPUTS] ++ (s0 :: ss')).
+        change (e0 :: es ++ [[]; M_STRING_INPUTS] ++ s0 :: ss') with ((e0 :: es) ++ [[]; M_STRING_INPUTS] ++ (s0 :: ss')).
+        rewrite app_assoc. apply (last_line_ok (s0 :: ss') ltac:(discriminate) Hs).
+    + intros ->. cbn [SIl]. rewrite app_nil_r. destruct Htl as [-> | ->].
+      * rewrite app_nil_r. apply lines_ne_unlines; auto.
+      * rewrite unlines_app. apply lines_ne_root; auto.
+Qed.
+
+Lemma not_marker_nil m : m <> [] -> not_marker m [].
+Proof. intros H. unfold not_marker. destruct m; [congruence | reflexivity]. Qed.
+
 Theorem framing_roundtrip a :
   sections_wf a = true -> written_shape a = true -> from_uasm (to_uasm a) = inr (reread a).
 Proof.
   intros Hwf Hsh. unfold from_uasm.
-  apply (cascade_roundtrip split_marker [] post_nl no_line_is); auto.
-  - intros m ls X Hm Ho Hn HX. apply sm_step; auto.
-  - intros m ls X Hm Ho Hn HX. cbn [app]. apply sm_step; auto.
-  - intros m ls X Hm Ho Hn HX. destruct ls as [|l ls].
-    + cbn [body' app]. apply sm_at; auto.
-    + unfold body'. rewrite <- app_assoc. cbn [app]. apply sm_step; auto.
-  - intros m ls Hm Ho Hls Hh. destruct (marker_facts _ Hm) as (Hne & Hnl & _).
-    rewrite trim_nl. unfold trim, split_marker. destruct ls as [|l ls].
-    + cbn [unlines map concat trim_start trim_end]. rewrite sm_eq. unfold at_marker.
-      destruct m; [congruence | reflexivity].
-    + assert (Hs : trim_start (unlines (l :: ls)) = unlines (l :: ls)).
-      { rewrite unlines_cons. destruct l as [|c l]; [discriminate|]. cbn [head_ok] in Hh.
-        apply negb_true_iff in Hh. cbn [app trim_start]. rewrite Hh. reflexivity. }
-      rewrite Hs. destruct (trim_end_unlines (l :: ls)) as (init & lastl & E & _ & HT); [discriminate | auto |].
-      specialize (HT []). cbn [app] in HT. rewrite HT.
-      pose proof (no_line_is_Forall _ _ Ho) as Hnm. pose proof (Forall_noNL _ Hls) as Hnn.
-      rewrite E in Hnm, Hnn. apply Forall_app in Hnm. apply Forall_app in Hnn.
-      destruct Hnm as [Hnm1 Hnm2]. destruct Hnn as [Hnn1 Hnn2].
-      inversion Hnm2; inversion Hnn2; subst.
-      rewrite sm_unlines by auto. rewrite sm_eq.
-      rewrite <- (app_nil_r lastl) at 1. rewrite at_marker_none by (auto; left; reflexivity).
-      destruct lastl as [|c lastl]; [reflexivity|].
-      assert (Hc : (c =? NL) = false).
-      { apply N.eqb_neq. intros ->. match goal with H : noNL (NL :: _) |- _ => apply H end. left; reflexivity. }
-      rewrite Hc, sm_nobol_none; [reflexivity|].
-      intros Hin. match goal with H : noNL (c :: _) |- _ => apply H end. right; auto.
-  - (* okall from the shape of the written lines *)
-    unfold sections_wf in Hwf. unfold written_shape in Hsh.
-    repeat (match goal with H : _ && _ = true |- _ => apply andb_prop in H; destruct H end).
-    repeat (match goal with H : forallb line_ok _ = true |- _ => rewrite forallb_forall in H; apply Forall_forall in H end).
-    assert (Mc : forall m, In m markers -> forallb is_marker_char m = true).
-    { apply forallb_forall. exact markers_chars. }
-    unfold okall.
+  assert (HSE := fun e st ta => head_sections_eq [] (or_introl eq_refl) a e st ta Hwf).
+  pose proof Hwf as Hwf0.
+  unfold sections_wf in Hwf. unfold written_shape in Hsh.
+  repeat (match goal with H : _ && _ = true |- _ => apply andb_prop in H; destruct H end).
+  repeat (match goal with H : forallb line_ok _ = true |- _ => rewrite forallb_forall in H; apply Forall_forall in H end).
+  assert (Mc : forall m, In m markers -> forallb is_marker_char m = true).
+  { apply forallb_forall. exact markers_chars. }
+  assert (Hokh : okhead no_line_is a = true).
+  { unfold okhead.
     repeat (apply andb_true_intro; split);
       first [ apply shape_no_line_is; [apply Mc; cbn; tauto | assumption | assumption]
-            | apply span_shape_no_line_is; [apply Mc; cbn; tauto | discriminate | assumption] ].
+            | apply span_shape_no_line_is; [apply Mc; cbn; tauto | discriminate | assumption] ]. }
+  assert (Etext : to_uasm a = head_text a (unlines (s_expansions a) ++ SI (s_strings a) ++ TA (s_asserts a))).
+  { unfold to_uasm, to_uasm_pre, head_text, mark, SI, TA.
+    destruct (s_strings a), (s_asserts a); repeat (first [rewrite <- app_assoc | progress (cbn [app])]); rewrite ?app_nil_r; reflexivity. }
+  set (exps := s_expansions a) in *. set (ss := s_strings a) in *. set (ts := s_asserts a) in *.
+  assert (MTA : marker_okb M_TEST_ASSERTS = true) by reflexivity.
+  assert (Hoe : no_line_is M_STRING_INPUTS exps = true) by (apply shape_no_line_is; [apply Mc; cbn; tauto | assumption | assumption]).
+  assert (HeTA : Forall (not_marker M_TEST_ASSERTS) exps)
+    by (apply no_line_is_Forall, shape_no_line_is; [apply Mc; cbn; tauto | assumption | assumption]).
+  assert (HsTA : Forall (not_marker M_TEST_ASSERTS) ss)
+    by (apply no_line_is_Forall, shape_no_line_is; [apply Mc; cbn; tauto | assumption | assumption]).
+  assert (Hen : Forall noNL exps) by (apply Forall_noNL; auto).
+  assert (Hsn : Forall noNL ss) by (apply Forall_noNL; auto).
+  (* the text *)
+  set (P := NL :: unlines exps ++ SI ss).
+  rewrite Etext.
+  rewrite (head_roundtrip split_marker [] post_nl no_line_is); auto;
+    [| intros m ls X Hm Ho Hn HX; apply sm_step; auto
+     | intros m ls X Hm Ho Hn HX; cbn [app]; apply sm_step; auto
+     | intros; apply sm_stepb; auto ].
+  replace (NL :: unlines exps ++ SI ss ++ TA ts) with (P ++ TA ts) by (unfold P; cbn [app]; rewrite <- app_assoc; reflexivity).
+  (* the lines of P *)
+  set (LP := [] :: exps ++ SIl ss).
+  assert (EP : P = unlines LP).
+  { unfold P, LP. rewrite unlines_cons, unlines_app, SI_unlines. reflexivity. }
+  assert (HLPn : Forall noNL LP).
+  { unfold LP. constructor; [intros []|]. apply Forall_app. split; [auto|].
+    unfold SIl. destruct ss; [constructor|]. constructor; [intros []|]. constructor; [|auto].
+    apply existsb_nl_false. reflexivity. }
+  assert (HLPm : Forall (not_marker M_TEST_ASSERTS) LP).
+  { unfold LP. constructor; [apply not_marker_nil; discriminate|]. apply Forall_app. split; [auto|].
+    unfold SIl. destruct ss; [constructor|]. constructor; [apply not_marker_nil; discriminate|].
+    constructor; [reflexivity | auto]. }
+  rewrite trim_post_nl by (unfold P; apply shape_trim_end). rewrite trim_trim_end.
+  destruct ts as [|t0 ts'] eqn:Ets.
+  - (* no TEST ASSERTS section *)
+    cbn [TA]. rewrite app_nil_r.
+    destruct (drop_LP exps ss []) as (Lx & ELx & HhLx & HlastLx & HneLx); auto.
+    rewrite app_nil_r in ELx. fold LP in ELx.
+    assert (Enone : split_marker M_TEST_ASSERTS (trim P) = None).
+    { unfold trim. rewrite EP, trim_start_unlines by (rewrite ELx; exact HhLx). rewrite ELx.
+      apply sm_none_lines; auto; rewrite <- ELx; apply dropblank_Forall; auto. }
+    rewrite Enone.
+    pose proof (si_step exps ss (post_nl (trim_end P))) as Hsi.
+    assert (Ht1 : trim (post_nl (trim_end P)) = trim (NL :: unlines exps ++ SI ss)).
+    { rewrite trim_post_nl by (unfold P; apply shape_trim_end). rewrite trim_trim_end. reflexivity. }
+    assert (Ht2 : ss = [] -> lines_ne (post_nl (trim_end P)) = exps).
+    { intros Ess. unfold P. rewrite Ess. cbn [SI]. rewrite app_nil_r.
+      destruct (lines_ne_trim_end_nl exps) as [E1 E2]; auto.
+      destruct (shape_trim_end (unlines exps)) as [E | [Y E]].
+      - rewrite E. rewrite E in E1. exact E1.
+      - rewrite E. cbn [post_nl]. rewrite N.eqb_refl. exact (E2 _ (eq_sym E)). }
+    specialize (Hsi ltac:(auto) ltac:(auto) Hoe ltac:(auto) ltac:(auto) Ht1 Ht2).
+    destruct (match split_marker M_STRING_INPUTS (trim (post_nl (trim_end P))) with
+              | Some p => p | None => (post_nl (trim_end P), []) end) as [e r'].
+    destruct Hsi as [Hsi1 Hsi2]. rewrite HSE, Hsi1, Hsi2.
+    unfold reread. fold exps ss ts. rewrite Ets. reflexivity.
+  - (* a TEST ASSERTS section *)
+    set (Z := NL :: unlines (t0 :: ts')).
+    destruct (drop_LP exps ss [[]]) as (Lx & ELx & HhLx & _ & HneLx); auto.
+    fold LP in ELx.
+    assert (EPnl : trim_start (P ++ [NL]) = unlines Lx).
+    { rewrite EP. change [NL] with (unlines [[]]). rewrite <- unlines_app.
+      rewrite <- ELx. apply trim_start_unlines. rewrite ELx. exact HhLx. }
+    assert (Etrim : trim (P ++ TA (t0 :: ts')) = unlines Lx ++ M_TEST_ASSERTS ++ trim_end Z).
+    { unfold trim, TA. fold Z. rewrite trim_start_app_marker by (do 2 eexists; split; reflexivity).
+      rewrite EPnl. apply trim_end_marker. reflexivity. }
+    rewrite Etrim.
+    rewrite sm_lines_at; [| auto | rewrite <- ELx; apply dropblank_Forall; apply Forall_app; split; [auto | constructor; [intros [] | constructor]]
+                           | rewrite <- ELx; apply dropblank_Forall; apply Forall_app; split; [auto | constructor; [apply not_marker_nil; discriminate | constructor]]
+                           | apply shape_trim_end ].
+    pose proof (si_step exps ss (unlines Lx)) as Hsi.
+    assert (Ht1 : trim (unlines Lx) = trim (NL :: unlines exps ++ SI ss)).
+    { rewrite <- EPnl, trim_trim_start, trim_app_nl. reflexivity. }
+    specialize (Hsi ltac:(auto) ltac:(auto) Hoe ltac:(auto) ltac:(auto) Ht1 HneLx).
+    destruct (match split_marker M_STRING_INPUTS (trim (unlines Lx)) with
+              | Some p => p | None => (unlines Lx, []) end) as [e r'].
+    destruct Hsi as [Hsi1 Hsi2]. rewrite HSE, Hsi1, Hsi2.
+    unfold Z. rewrite trim_post_nl by apply shape_trim_end. rewrite trim_trim_end.
+    rewrite lines_strings by auto.
+    unfold reread. fold exps ss ts. rewrite Ets. reflexivity.
 Qed.
 
-(** the refutation witness of the old reader is read back by the current one *)
+(** the refutation witness of the old reader is read back by the current one, and so is an
+    assembly with test assertions *)
 Example current_reads_witness : from_uasm (to_uasm refute_witness) = inr (reread refute_witness).
+Proof. apply framing_roundtrip; reflexivity. Qed.
+
+(** an assembly with one test assertion: the reader before 69a2f06 gives the count 0 back *)
+Definition asserts_witness : sections :=
+  Sections [[91;34;84;69;83;84;95;65;83;83;69;82;84;34;44;49;93]] [] [] [] [] [] [] [] [] [] [[34;97;34]] [[49]].
+Theorem test_asserts_lost_pre : exists a, sections_wf a = true /\ written_shape a = true /\
+  from_uasm_mid (to_uasm_pre a) <> inr (reread a).
+Proof.
+  exists asserts_witness. split; [reflexivity|]. split; [reflexivity|].
+  rewrite framing_roundtrip_mid by reflexivity. discriminate.
+Qed.
+Example current_reads_asserts : from_uasm (to_uasm asserts_witness) = inr (reread asserts_witness).
 Proof. apply framing_roundtrip; reflexivity. Qed.
